@@ -163,7 +163,9 @@ fn model_hash_iterations(hs: HashSpec, pubk: &[u8], msg: &[u8], sig: &[u8]) -> O
 fn scenario_c15(stats: &Arc<Mutex<Stats>>) {
     // the PCT scheduler insists on at least one concurrent task per iteration; refusal cases spawn
     // none of their own
-    shuttle::thread::spawn(|| {}).join().unwrap();
+    let warmup = shuttle::thread::spawn(|| {});
+    shuttle::thread::sleep(std::time::Duration::from_nanos(0));
+    warmup.join().unwrap();
     let mut rng = shuttle::rand::thread_rng();
     let hi = rng.gen_range(0..6usize);
     let (hname, fam, n) = HASHES[hi];
